@@ -1831,7 +1831,7 @@ def run_hold_scenario(hold_time: int, arrivals_ms: list[int], until_ms: int | No
     return out
 
 
-def run_flap_scenario(routes_text: list[str], cut_after_n_messages: int, ops_while_down: list[list], adj_rib_out: bool = True, max_ticks: int = 400) -> dict:
+def run_flap_scenario(routes_text: list[str], cut_after_n_messages: int, ops_while_down: list[list], adj_rib_out: bool = True, max_ticks: int = 400, neighbor_opts: dict | None = None) -> dict:
     """Session loss and resynchronisation on the real Peer (C11 end to end).
 
     `routes_text`: configured routes (text grammar, e.g. 'route 10.0.0.0/24 next-hop 192.0.2.1 med 1').
@@ -1846,6 +1846,10 @@ def run_flap_scenario(routes_text: list[str], cut_after_n_messages: int, ops_whi
     rig = SessionRig({'routes': 0, 'hold': 180})
     n = rig.neighbor
     n.rib.outgoing.cache = adj_rib_out
+    for k, v in (neighbor_opts or {}).items():  # rarely used settings of the neighbor: rate_limit (one route per loop iteration), group_updates
+        if not hasattr(n, k):
+            raise RigError(f'the neighbor has no setting {k}')
+        setattr(n, k, v)
     routes = [n.resolve_self(rig.cfg_obj.parse_route_text(t)[0]) for t in routes_text]
     n.routes = list(routes)
     for r in routes:
